@@ -511,6 +511,13 @@ func (c *fnCtx) function() {
 			if n.Name == "_" {
 				c.lostAt(f, "blank parameter")
 			}
+			if t.k == "slice" && t.elem.k == "slice" && n.Obj != nil && nestedReadOnly(fd, n.Obj) {
+				// a slice of slices that is only read: by value
+				if t.elem.elem.k == "slice" {
+					c.lostAt(f, "parameter %s: three levels of slices", n.Name)
+				}
+				t = &fnType{k: "slice", elem: &fnType{k: "rslice", elem: t.elem.elem}}
+			}
 			v := c.newVar(n.Name, t, "param")
 			v.obj = n.Obj
 			c.vars[n.Obj] = v
@@ -583,8 +590,14 @@ func (c *fnCtx) function() {
 	// results
 	if fd.Type.Results != nil && !fn.retRecv {
 		slot := 0
+		nres := fd.Type.Results.NumFields()
 		for _, f := range fd.Type.Results.List {
-			t := c.goType(f.Type)
+			var t *fnType
+			if _, isPtr := f.Type.(*ast.StarExpr); isPtr && len(f.Names) == 0 && elemPtrResult(fd, slot, nres) != nil {
+				t = &fnType{k: "eptr"} // &s[i] of a slice parameter, or nil: the index
+			} else {
+				t = c.goType(f.Type)
+			}
 			n := len(f.Names)
 			if n == 0 {
 				n = 1
@@ -822,6 +835,16 @@ func (c *fnCtx) sliceUsage(fd *ast.FuncDecl) map[string]*sliceUse {
 						retRooted[i] = k
 					} else if retRooted[i] != k {
 						retRooted[i] = 3
+					}
+				}
+			}
+		case *ast.ExprStmt:
+			// pkg.F(vs) as a statement, F declared extern: it hands back the new elements of its
+			// slice arguments: a parameter among them is stored into
+			if call, ok := v.X.(*ast.CallExpr); ok && c.externKey(call) != "" {
+				for _, a := range call.Args {
+					if p := paramOf(a); p != "" {
+						use[p].stored, use[p].elems = true, true
 					}
 				}
 			}
